@@ -75,7 +75,8 @@ pub fn enc(s: &str) -> String {
         return "%".to_string(); // the empty string is the single token "%"
     }
     for b in s.bytes() {
-        if b > 0x20 && b < 0x7f && b != b'%' {
+        // `|` and `=` are escaped too: sections of a line are separated by ` | ` and ` => `
+        if b > 0x20 && b < 0x7f && b != b'%' && b != b'|' && b != b'=' {
             out.push(b as char);
         } else {
             out.push_str(&format!("%{:02X}", b));
